@@ -84,4 +84,10 @@ MUTANTS = [
          old="    absorbing_element(items, g, zero)?;", new="    absorbing_element(items, f, zero)?;"),
     dict(name="c09-ring-drop-question-mark", prop="C09", expect="C09.err", file="lattices/src/algebra.rs",
          old="    semiring(items, f, g, zero.clone(), one)?;\n    inverse(items, f, zero, b)?;\n    Ok(())", new="    semiring(items, f, g, zero.clone(), one)?;\n    let _ = inverse(items, f, zero, b);\n    Ok(())"),
+    dict(name="c42-cluster-ids-unsorted", prop="C42", expect="C42.hashorder", file="hydro_lang/src/compile/deploy.rs",
+         old="        let mut all_clusters_sorted = self.clusters.keys().collect::<Vec<_>>();\n        all_clusters_sorted.sort();", new="        let all_clusters_sorted = self.clusters.keys().collect::<Vec<_>>();"),
+    dict(name="c42-sim-graph-unsorted", prop="C42", expect="C42.hashorder", file="hydro_lang/src/sim/graph.rs",
+         old="    let mut cluster_max_sizes = cluster_max_sizes.into_iter().collect::<Vec<_>>();\n    cluster_max_sizes.sort();", new="    let cluster_max_sizes = cluster_max_sizes.into_iter().collect::<Vec<_>>();"),
+    dict(name="c38-std-hashmap-in-keyed-hook", prop="C38", expect="C38.hashorder", file="hydro_lang/src/sim/runtime.rs",
+         old="        let mut grouped = FxHashMap::default();", new="        let mut grouped = HashMap::new();"),
 ]
